@@ -510,8 +510,8 @@ func c09R3IsTagged(c *Ctx, R3 string, h *c09Helpers) {
 			c.Undecided(R3, key, a.Ret.Pos(), "result "+describe(a.Val)+" is not a comparison of len(tagSet) with a constant")
 			return
 		}
-		onSelf := c09AtomMustPass(a, newCut().Edges(selfT...))
-		onOther := c09AtomMustPass(a, newCut().Edges(selfF...))
+		onSelf := AtomMustPass(a, newCut().Edges(selfT...))
+		onOther := AtomMustPass(a, newCut().Edges(selfF...))
 		switch {
 		case onSelf && !onOther:
 			if thr != 2 {
@@ -846,16 +846,6 @@ func c09R5(c *Ctx) {
 			c.OK(R5, key, f.Pos(), fmt.Sprintf("s.sync is write-locked at all %d calls that use the store or mutate the file system", n))
 		}
 	}
-}
-
-// c09AtomMustPass works around AtomMustPass for atoms anchored at the Return
-// itself (no phi edge, no store): there the shared primitive answers true even
-// when entry -> Return avoids the cut.
-func c09AtomMustPass(a RetAtom, ct *cut) bool {
-	if len(a.Edges) == 0 && a.Store == nil {
-		return MustPass(a.Ret, ct)
-	}
-	return AtomMustPass(a, ct)
 }
 
 // ---------------------------------------------------------------- mutants
